@@ -192,7 +192,8 @@ type sconn struct {
 	wpols   []wpol
 	remote  *net.UDPAddr
 	nWrites atomic.Int64
-	dead    bool // set under o.mu by Close: no further observations on this connection
+	stall   atomic.Int64 // unix nano until which WriteBatch does not return (stalled writer)
+	dead    bool         // set under o.mu by Close: no further observations on this connection
 }
 
 func (c *sconn) ReadBatch(msgs conn.Messages) (int, error) {
@@ -286,6 +287,13 @@ func (c *sconn) WriteBatch(msgs conn.Messages, flags int) (int, error) {
 	o.mu.Unlock()
 	if p.sleep > 0 {
 		time.Sleep(p.sleep)
+	}
+	for time.Now().UnixNano() < c.stall.Load() {
+		select {
+		case <-c.closed:
+			return -1, errors.New("closed")
+		case <-time.After(2 * time.Millisecond):
+		}
 	}
 	written := len(msgs)
 	var err error
@@ -490,6 +498,11 @@ func runScenario(e *vlib.Env, idx int, r *vlib.Rand) bool {
 		Opener: op, DetectMult: 3, DesiredMinTxInterval: 20 * time.Millisecond, RequiredMinRxInterval: 20 * time.Millisecond,
 	}
 	bfdOn := r.Chance(35)
+	// every 8th scenario: a BFD sender meets a FULL egress queue (stalled writer on its link)
+	stallBFD := idx%8 == 0
+	if stallBFD {
+		bfdOn = true
+	}
 	cfg.Ifs = []router.VerifConcIf{
 		{ID: 1, LinkTo: topology.Parent, Neighbor: iaA, BFD: false, Local: "203.0.113.1:50001", Remote: "203.0.113.2:50001"},
 		{ID: 2, LinkTo: topology.Child, Neighbor: iaB, BFD: bfdOn, Local: "203.0.113.5:50002", Remote: "203.0.113.6:50002"},
@@ -625,6 +638,34 @@ func runScenario(e *vlib.Env, idx int, r *vlib.Rand) bool {
 		}
 		if r.Chance(30) {
 			time.Sleep(time.Duration(r.Range(0, 400)) * time.Microsecond)
+		}
+	}
+	// BFD sender against a full egress queue: the writer of interface 2 stalls, SCMP replies to
+	// packets arriving on interface 2 fill its batch and its queue (the slow path sends on the
+	// ingress link whatever the BFD state), and the BFD session of interface 2 (Down: one packet
+	// per 0.75-1 s) finds the queue full at least once. The pool is audited meanwhile.
+	if stallBFD && len(conns) > 2 {
+		rep["bfd_send_on_full_queue"] = true
+		end := time.Now().Add(1400 * time.Millisecond)
+		conns[2].stall.Store(end.UnixNano())
+		for time.Now().Before(end) {
+			in := inject{}
+			for j := 0; j < cfg.BatchSize; j++ {
+				tag++
+				in.pkts = append(in.pkts, transit(tag, false, r.Intn(40)))
+				o.mu.Lock()
+				o.inj[tag] = true
+				o.mu.Unlock()
+			}
+			select {
+			case conns[2].feed <- in:
+			default:
+			}
+			time.Sleep(70 * time.Millisecond)
+			midAudit()
+			o.mu.Lock()
+			o.counts["stall-audit"]++
+			o.mu.Unlock()
 		}
 	}
 	// quiescence + audit
